@@ -201,6 +201,41 @@ def run(ck):
         emit("pm %d %d %d %d %d %s %s" % (N, 1 if start == 0.0 else 0, 1 if ongrid else 0, Ns, ln,
                                            " ".join(frac(x) for x in E.flatten()), " ".join(frac(x) for x in Edt.flatten())),
              " | ".join(" ".join(frac(x) for x in U[:, :, i].flatten()) for i in range(ln)), 1e-9)
+    # ---- (d) one propagator, rates edited between calls: both methods must follow the rate matrix as it is now ------------------
+    for h in range(ck.n(6, 60)):
+        N = rng.randint(2, 4)
+        rm = RateMatrix(dim=N)
+        for _ in range(N + 2):
+            i, j = rng.randrange(N), rng.randrange(N)
+            if i != j:
+                rm.set_rate((i, j), rng.randint(1, 8) / 64.0)
+        dt = 1.0
+        ta2 = TimeAxis(0.0, 60, dt)
+        ts2 = TimeAxis(0.0, 6, 4.0 * dt)
+        prop = PopulationPropagator(ta2, rm)
+        p0 = numpy.zeros(N); p0[0] = 1.0
+        ck.case(("edit", h), nontrivial=True, kind="edited-rates")
+        for phase in range(3):
+            if phase > 0:
+                for _ in range(2):
+                    i, j = rng.randrange(N), rng.randrange(N)
+                    if i != j:
+                        rm.set_rate((i, j), rng.randint(1, 8) / 64.0)
+            Know = numpy.array(rm.data, dtype=float)
+            inp = {"K": Know.tolist(), "phase": phase, "history": "get_PropagationMatrix / propagate, set_rate, again on the same propagator"}
+            try:
+                U = prop.get_PropagationMatrix(ts2)
+                pt = numpy.array(prop.propagate(p0.copy()))
+            except Exception as e:
+                ck.fail("raises:edited-rates", "raised %r" % (e,), inp)
+                break
+            worst = max(float(numpy.abs(U[:, :, i] - scipy.linalg.expm(Know * (4.0 * dt * i))).max()) for i in range(6))
+            worst2 = max(float(numpy.abs(pt[4 * i] - scipy.linalg.expm(Know * (4.0 * dt * i)) @ p0).max()) for i in range(6))
+            ck.resid("edited rates: propagation matrix vs expm of the current matrix", worst)
+            if worst > 1e-9:
+                ck.fail("propmatrix:after-set_rate", "propagation matrix does not belong to the rate matrix as it is now", inp, worst)
+            if worst2 > 1e-4:      # fourth-order expansion with dt|K| ~ 0.2: truncation error ~1e-5; a stale matrix is off by ~1e-1
+                ck.fail("propagate:after-set_rate", "propagated populations do not belong to the rate matrix as it is now", inp, worst2)
     # ---- model -----------------------------------------------------------------------------
     if ok:
         model = ck.drive(DRIVER, lines)
